@@ -1125,6 +1125,9 @@ func TestGen(t *testing.T) {
 	rapid.Check(t, func(rt_ *rapid.T) {
 		gc := genGenCase(rt_, prop)
 		oc := runGenCase(gc, nil)
+		if m := takeEnvTrouble(); m != "" && oc.inconclusive == "" {
+			oc.inconclusive = "a tool failed for an environmental reason (" + m + "): no verdict"
+		}
 		if oc.inconclusive != "" {
 			if *flagOut != "" {
 				f, err := os.OpenFile(filepath.Join(*flagOut, fmt.Sprintf("inconclusive-%s-%d.txt", prop, *flagShard)), os.O_APPEND|os.O_CREATE|os.O_WRONLY, 0o644)
